@@ -832,9 +832,18 @@ impl<'a> VisitMut for Rules<'a> {
                     let inner = &c.expr;
                     *e = syn::parse_quote!(vx_to_f64(#inner));
                     self.ctx.used("R10");
-                } else if let Some(list) = self.ctx.opts["float_casts"].as_array() {
+                } else if {
+                    // a float -> integer cast: the operand is listed (opts.float_casts), mentions a float literal, or mentions a
+                    // variable declared to be a float (opts.float_vars)
                     let me = norm(&quote!(#c).to_string());
-                    if list.iter().any(|v| v.as_str().map(norm).as_deref() == Some(&me)) {
+                    let inner_txt = c.expr.to_token_stream().to_string();
+                    let listed = self.ctx.opts["float_casts"].as_array().map(|l| l.iter().any(|v| v.as_str().map(norm).as_deref() == Some(&me))).unwrap_or(false);
+                    let int_target = matches!(ty.as_str(), "i32" | "i64" | "u32" | "u64" | "usize" | "isize");
+                    let has_lit = inner_txt.contains("F64 ::") || inner_txt.contains("F64::");
+                    let has_var = self.ctx.opts["float_vars"].as_array().map(|l| l.iter().any(|v| v.as_str().map(|n| inner_txt.split(|ch: char| !(ch.is_alphanumeric() || ch == '_')).any(|w| w == n)).unwrap_or(false))).unwrap_or(false);
+                    int_target && (listed || has_lit || has_var)
+                } {
+                    {
                         let inner = &c.expr;
                         let f = syn::Ident::new(&format!("to_{}", ty), proc_macro2::Span::call_site());
                         *e = syn::parse_quote!(F64::#f(#inner));
